@@ -138,6 +138,7 @@ def extract_program(out):
     m = re.search(r'pub const Y86_PREAMBLE: &\'static str = "(.*?)";', raw, flags=re.S)
     pre = m.group(1) if m else "UNRECOGNISED"
     out.append("def preamble : String := " + lstr(pre))
+    out.append("def preambleBytes : List Nat := " + llist(str(b) for b in pre.encode("utf-8")))
     # constants of the preamble: name = literal / name
     pre_nc = re.sub(r"#[^\n]*", "", pre)
     consts = re.findall(r"(\w+)\s*=\s*([0-9A-Za-z_]+)\s*[,;]", pre_nc)
